@@ -216,6 +216,15 @@ Fixpoint emit (c : con) : emitters :=
         | Done t g2 => Done (with_enum nm (with_ty t blank)) g2
         | _ => Broken
         end)
+  | CFocusedSeq _ [CRenamed _ (CRebuild lc _); CRenamed _ (CArray _ el)] =>
+      (* PrefixedArray: the macro's own _emitseq *)
+      mkEm (fun g bw => match compile_prim (emit lc) g bw with
+                        | Done t g1 => match compile_prim (emit el) g1 bw with
+                                       | Done t2 g2 => Done [with_ty t (with_id (Some n_countfield) blank);
+                                                             with_rep (KRExpr (KSName n_countfield)) (with_ty t2 (with_id (Some n_kdata) blank))] g2
+                                       | _ => Broken end
+                        | _ => Broken end)
+           (fun _ _ => NotImpl) (fun _ _ => NotImpl)
   | CStruct cs | CSequence cs | CFocusedSeq _ cs =>
       mkEm (fun g bw => full_all emit cs g bw) (fun _ _ => NotImpl) (fun _ _ => NotImpl)
   | CArray count c' =>
@@ -243,6 +252,13 @@ Fixpoint emit (c : con) : emitters :=
         | Err _ _ => Broken
         end)
   | CRebuild c' _ | CDefault c' _ | CHex c' | CHexDump c' => passthrough (emit c')
+  (* Bitwise / Bytewise: the macros' own emitters compile the subcon with the bitwise flag set / cleared *)
+  | CTransformed c' BFbytes2bits _ BFbits2bytes _ | CRestreamed c' BFbytes2bits _ BFbits2bytes _ _ =>
+      let em := emit c' in
+      mkEm (fun g _ => compile_seq em g true) (fun g _ => compile_prim em g true) (fun g _ => compile_full em g true)
+  | CTransformed c' BFbits2bytes _ BFbytes2bits _ | CRestreamed c' BFbits2bytes _ BFbytes2bits _ _ =>
+      let em := emit c' in
+      mkEm (fun g _ => compile_seq em g false) (fun g _ => compile_prim em g false) (fun g _ => compile_full em g false)
   | CIfThenElse cond a CPass =>
       (* If(cond, a): the macro's own _emitfulltype *)
       only_full (fun g bw => match compile_prim (emit a) g bw with
